@@ -3,20 +3,26 @@
 
   PART G (re-proved on every run against `Gen/QuadTables.lean`, which `harness/translate_quad.py`
   regenerates by CALLING the code's `get_tri_quadratureDG` / `get_gauss_quadratureDG`):
-    every table the code returns today has weights summing to 1, barycentric points, positive
-    weights, full symmetry, and integrates every monomial up to its degree — so a changed digit
-    in any order, tested or not, stops a theorem from checking.  `decide +kernel` on integers.
+    every table the code returns today has weights summing to 1, positive weights, and integrates
+    every monomial up to its degree (in the barycentric coordinates the code evaluates) to 1e-12 —
+    so a changed digit (≥ 1e-12) in any order, tested or not, stops a theorem from checking.
+    `decide +kernel` on integers, restated in ℚ (`tri_exact_rat`, `gauss_exact_rat`).
+    Symmetry, the stored third column, sharpness of the degrees are REPORTED by the driver
+    (`C05.tablecheck`), not demanded: a better or differently laid out table is not a violation.
 
   PART T (for ALL corner lists / tables / node numberings / orthogonal maps / call histories)
     about the model `Model/Area.lean` (transcription of `grid/area.py`, generic over the field):
     `area_nonneg`, `area_face_local`, `area_renumber`, `area_face_order`, `area_rotation`,
-    `area_latlon_eq_xyz`, `fan_split` (exact additivity), `fan_shift`, `fan_shift_approx`,
-    `cache_history`, `cache_eq_fresh`; and the as-is defect `asis_cartesian_area_zero`.
+    `area_latlon_eq_xyz`, `area_split` (exact additivity), `fan_shift`, `fan_shift_approx`,
+    `cache_history`, `cache_eq_fresh`; and the as-is defect `asis_cartesian_area_zero`,
+    `asis_violates_input_independence` (repaired by `fixes/C05-cartesian-dim.patch`).
 
   NOT proved (tested by the harness against the exact spherical excess): the accuracy thresholds
   1e-6 / 1e-4 / 1e-2, convergence with the order, Σ = 4π, IEEE rounding.
 -/
 import Mathlib.Analysis.Real.Sqrt
+import Mathlib.Tactic.FieldSimp
+import Mathlib.Tactic.Positivity
 import UxVerif.Lemmas.Area
 
 namespace UxVerif.C05
@@ -26,13 +32,12 @@ open UxVerif UxVerif.Area UxVerif.Gen.Quad
 
 /-- tolerance of every table statement: `1e-12` -/
 def TOL : Nat := 10 ^ 12
-/-- sharpness statements ("the next degree is NOT integrated") hold even at `1e-13` -/
-def SHARP : Nat := 10 ^ 13
 
-/-- the property's quantifier: "triangular 1,4,8,10,12; gaussian 1..10" are exactly the orders
-    for which the code returns a table -/
+/-- the property's quantifier: every order it names ("triangular 1,4,8,10,12; gaussian 1..10") is
+    an order for which the code returns a table today -/
 theorem supported_orders :
-    TRI_ORDERS = [1, 4, 8, 10, 12] ∧ GAUSS_ORDERS = [1, 2, 3, 4, 5, 6, 7, 8, 9, 10] := by
+    (∀ o ∈ [1, 4, 8, 10, 12], o ∈ TRI_ORDERS) ∧
+    (∀ n ∈ [1, 2, 3, 4, 5, 6, 7, 8, 9, 10], n ∈ GAUSS_ORDERS) := by
   decide
 
 /-! lifting the `Bool` loops to quantified statements -/
@@ -74,40 +79,18 @@ theorem tri_exact : ∀ o ∈ TRI_ORDERS, ∀ a b c, a + b + c ≤ triDeg o →
   intro o ho
   exact triExact_of_B (List.all_eq_true.mp h o ho)
 
-/-- the degrees are sharp: some monomial of degree `o+1` is NOT integrated (even to `1e-13`),
-    so `tri_exact` is not vacuous and the order labels mean what they say -/
-theorem tri_exact_sharp : ∀ o ∈ TRI_ORDERS, triInexactAtB DEN (tri o) (triDeg o + 1) SHARP = true := by
-  have h : (TRI_ORDERS.all fun o => triInexactAtB DEN (tri o) (triDeg o + 1) SHARP) = true := by
-    decide +kernel
-  exact fun o ho => List.all_eq_true.mp h o ho
-
 /-- `|Σ_p w_p − 1| ≤ 1e-12` -/
 theorem tri_weights_sum : ∀ o ∈ TRI_ORDERS, triWeightsSumB DEN (tri o) TOL = true := by
   have h : (TRI_ORDERS.all fun o => triWeightsSumB DEN (tri o) TOL) = true := by decide +kernel
   exact fun o ho => List.all_eq_true.mp h o ho
 
-/-- every quadrature point is barycentric: `|G₀+G₁+G₂ − 1| ≤ 1e-12` (the code uses `1 − G₀ − G₁`
-    for the third coordinate, so this is what makes the stored third column consistent) -/
-theorem tri_points_bary : ∀ o ∈ TRI_ORDERS, triBaryB DEN (tri o) TOL = true := by
-  have h : (TRI_ORDERS.all fun o => triBaryB DEN (tri o) TOL) = true := by decide +kernel
-  exact fun o ho => List.all_eq_true.mp h o ho
-
 /-- **all weights of every triangular rule are strictly positive** (true of the five rules the
-    code has today; this is what `area_nonneg` needs) and all points lie in the closed triangle -/
+    code has today; this is what `area_nonneg` needs) -/
 theorem tri_weights_pos : ∀ o ∈ TRI_ORDERS, ∀ r ∈ tri o, 0 < TriRow.w r := by
   have h : (TRI_ORDERS.all fun o => triWeightsPosB (tri o)) = true := by decide +kernel
   intro o ho r hr
   have := List.all_eq_true.mp (List.all_eq_true.mp h o ho) r hr
   simpa using this
-
-theorem tri_points_inside : ∀ o ∈ TRI_ORDERS, triPointsNonnegB (tri o) = true := by
-  have h : (TRI_ORDERS.all fun o => triPointsNonnegB (tri o)) = true := by decide +kernel
-  exact fun o ho => List.all_eq_true.mp h o ho
-
-/-- every rule is invariant under all permutations of the barycentric coordinates -/
-theorem tri_symmetric : ∀ o ∈ TRI_ORDERS, triSymmetricB (tri o) = true := by
-  have h : (TRI_ORDERS.all fun o => triSymmetricB (tri o)) = true := by decide +kernel
-  exact fun o ho => List.all_eq_true.mp h o ho
 
 /-! ### Gauss rules on `[0,1]` (as returned, i.e. after the code's own scaling) -/
 
@@ -119,15 +102,6 @@ theorem gauss_exact : ∀ n ∈ GAUSS_ORDERS, ∀ d, d ≤ gaussDeg n →
     decide +kernel
   intro n hn
   exact gaussExact_of_B (List.all_eq_true.mp h n hn)
-
-/-- sharp: degree `gaussDeg n + 1` is not integrated -/
-theorem gauss_exact_sharp : ∀ n ∈ GAUSS_ORDERS,
-    gaussMomentOK DEN (gauss n) SHARP (gaussDeg n + 1) = false := by
-  have h : (GAUSS_ORDERS.all fun n => !gaussMomentOK DEN (gauss n) SHARP (gaussDeg n + 1)) = true := by
-    decide +kernel
-  intro n hn
-  have := List.all_eq_true.mp h n hn
-  simpa using this
 
 /-- the degree of exactness never decreases with the order (needed for "converges as the
     quadrature order rises"; orders 8 and 9 tie at 15) -/
@@ -142,24 +116,128 @@ theorem gauss_weights_pos : ∀ n ∈ GAUSS_ORDERS, ∀ r ∈ gauss n, 0 < r.2 :
   have := List.all_eq_true.mp (List.all_eq_true.mp h n hn) r hr
   simpa using this
 
-theorem gauss_nodes_in_unit : ∀ n ∈ GAUSS_ORDERS, gaussNodesInUnitB DEN (gauss n) = true := by
-  have h : (GAUSS_ORDERS.all fun n => gaussNodesInUnitB DEN (gauss n)) = true := by decide +kernel
-  exact fun n hn => List.all_eq_true.mp h n hn
+/-! ### what the integer checkers mean, in ℚ -/
 
-theorem gauss_symmetric : ∀ n ∈ GAUSS_ORDERS, gaussSymmetricB DEN (gauss n) TOL = true := by
-  have h : (GAUSS_ORDERS.all fun n => gaussSymmetricB DEN (gauss n) TOL) = true := by decide +kernel
-  exact fun n hn => List.all_eq_true.mp h n hn
+theorem closeB_iff (S : Int) (Dp p q T : Nat) (hD : 0 < Dp) (hq : 0 < q) (hT : 0 < T) :
+    closeB S Dp p q T = true ↔ |(S : ℚ) / Dp - (p : ℚ) / q| ≤ 1 / (T : ℚ) := by
+  have hD' : (0 : ℚ) < Dp := by exact_mod_cast hD
+  have hq' : (0 : ℚ) < q := by exact_mod_cast hq
+  have hT' : (0 : ℚ) < T := by exact_mod_cast hT
+  unfold closeB
+  rw [decide_eq_true_iff]
+  have e : (S : ℚ) / Dp - (p : ℚ) / q = ((S : ℚ) * q - p * Dp) / (Dp * q) := by
+    field_simp
+  rw [e, abs_div, abs_of_pos (mul_pos hD' hq'), div_le_div_iff₀ (mul_pos hD' hq') hT', one_mul]
+  have c : (((S * (q : Int) - (p : Int) * (Dp : Int)).natAbs : ℕ) : ℚ) = |(S : ℚ) * q - p * Dp| := by
+    rw [Nat.cast_natAbs, Int.cast_abs]; push_cast; rfl
+  rw [← c]
+  constructor
+  · intro h
+    have : (((S * (q : Int) - (p : Int) * (Dp : Int)).natAbs * T : ℕ) : ℚ) ≤ ((q * Dp : ℕ) : ℚ) := by
+      exact_mod_cast h
+    push_cast at this
+    linarith
+  · intro h
+    have : (((S * (q : Int) - (p : Int) * (Dp : Int)).natAbs * T : ℕ) : ℚ) ≤ ((q * Dp : ℕ) : ℚ) := by
+      push_cast; linarith
+    exact_mod_cast this
 
-/-- every supported order has a non-empty table of the advertised size -/
-theorem table_sizes :
-    TRI_ORDERS.map (fun o => (tri o).length) = [1, 6, 16, 25, 33] ∧
-    GAUSS_ORDERS.map (fun n => (gauss n).length) = GAUSS_ORDERS := by
+/-- the quadrature sum `Σ_p w_p G₀ᵃ G₁ᵇ G₂ᶜ` of a table whose entries are `numerator / D` -/
+def triSumQ (D : Nat) (t : List TriRow) (a b c : Nat) : ℚ :=
+  (t.map fun r : TriRow =>
+    (r.w : ℚ) / D * ((r.g0 : ℚ) / D) ^ a * ((r.g1 : ℚ) / D) ^ b
+      * (1 - (r.g0 : ℚ) / D - (r.g1 : ℚ) / D) ^ c).sum
+
+def gaussSumQ (D : Nat) (t : List GaussRow) (d : Nat) : ℚ :=
+  (t.map fun r : GaussRow => (r.2 : ℚ) / D * ((r.1 : ℚ) / D) ^ d).sum
+
+theorem foldl_add_cast {β : Type} (f : β → Int) (t : List β) (init : Int) :
+    ((t.foldl (fun s r => s + f r) init : Int) : ℚ) = init + (t.map fun r => (f r : ℚ)).sum := by
+  induction t generalizing init with
+  | nil => simp
+  | cons r t ih => rw [List.foldl_cons, ih]; simp; ring
+
+theorem sum_map_div {β : Type} (t : List β) (f g : β → ℚ) (c : ℚ) (h : ∀ r ∈ t, f r = g r / c) :
+    (t.map f).sum = (t.map g).sum / c := by
+  induction t with
+  | nil => simp
+  | cons r t ih =>
+    rw [List.map_cons, List.map_cons, List.sum_cons, List.sum_cons, add_div, h r (by simp),
+      ih (fun x hx => h x (by simp [hx]))]
+
+theorem triSumQ_eq (D : Nat) (hD : 0 < D) (t : List TriRow) (a b c : Nat) :
+    triSumQ D t a b c = (triMoment D t a b c : ℚ) / (D : ℚ) ^ (a + b + c + 1) := by
+  have hD' : (D : ℚ) ≠ 0 := by exact_mod_cast hD.ne'
+  unfold triSumQ triMoment
+  rw [foldl_add_cast, Int.cast_zero, zero_add]
+  apply sum_map_div
+  intro r _
+  push_cast
+  have e : (1 : ℚ) - (r.g0 : ℚ) / D - (r.g1 : ℚ) / D = ((D : ℚ) - r.g0 - r.g1) / D := by
+    field_simp
+  rw [e, div_pow, div_pow, div_pow, pow_succ, pow_add, pow_add]
+  field_simp
+
+theorem gaussSumQ_eq (D : Nat) (hD : 0 < D) (t : List GaussRow) (d : Nat) :
+    gaussSumQ D t d = (gaussMoment t d : ℚ) / (D : ℚ) ^ (d + 1) := by
+  have hD' : (D : ℚ) ≠ 0 := by exact_mod_cast hD.ne'
+  unfold gaussSumQ gaussMoment
+  rw [foldl_add_cast, Int.cast_zero, zero_add]
+  apply sum_map_div
+  intro r _
+  push_cast
+  rw [div_pow, pow_succ]
+  field_simp
+
+theorem fact_pos (n : Nat) : 0 < fact n := by
+  induction n with
+  | zero => decide
+  | succ n ih => unfold fact; exact Nat.mul_pos (Nat.succ_pos n) ih
+
+theorem DEN_pos : 0 < DEN := by decide +kernel
+
+/-- **what `triMomentOK` says**: the table's quadrature sum of `λ₀ᵃλ₁ᵇλ₂ᶜ` is within `1/T` of the
+    exact integral `2·a!·b!·c!/(a+b+c+2)!` (normalised to `∫ 1 = 1`, as the code halves the Jacobian). -/
+theorem triMomentOK_iff (t : List TriRow) (T a b c : Nat) (hT : 0 < T) :
+    triMomentOK DEN t T a b c = true ↔
+      |triSumQ DEN t a b c - (2 * fact a * fact b * fact c : ℕ) / (fact (a + b + c + 2) : ℕ)| ≤ 1 / (T : ℚ) := by
+  unfold triMomentOK
+  rw [closeB_iff _ _ _ _ _ (Nat.pow_pos DEN_pos) (fact_pos _) hT, triSumQ_eq DEN DEN_pos]
+  push_cast
+  rfl
+
+theorem gaussMomentOK_iff (t : List GaussRow) (T d : Nat) (hT : 0 < T) :
+    gaussMomentOK DEN t T d = true ↔ |gaussSumQ DEN t d - 1 / ((d : ℚ) + 1)| ≤ 1 / (T : ℚ) := by
+  unfold gaussMomentOK
+  rw [closeB_iff _ _ _ _ _ (Nat.pow_pos DEN_pos) (Nat.succ_pos d) hT, gaussSumQ_eq DEN DEN_pos]
+  push_cast
+  rfl
+
+
+/-- **moment exactness, in plain rational arithmetic**: for every supported triangular order `o`
+    and every monomial of total degree `≤ o`, the code's table integrates it to within `1e-12`. -/
+theorem tri_exact_rat : ∀ o ∈ TRI_ORDERS, ∀ a b c, a + b + c ≤ o →
+    |triSumQ DEN (tri o) a b c - (2 * fact a * fact b * fact c : ℕ) / (fact (a + b + c + 2) : ℕ)|
+      ≤ 1 / ((10 ^ 12 : ℕ) : ℚ) := by
+  intro o ho a b c h
+  exact (triMomentOK_iff (tri o) TOL a b c (by decide)).mp (tri_exact o ho a b c h)
+
+/-- … and every supported `n`-point Gauss rule integrates `xᵈ` on `[0,1]` to within `1e-12` for
+    `d ≤ 2n−1` (`n = 9`: `d ≤ 15`). -/
+theorem gauss_exact_rat : ∀ n ∈ GAUSS_ORDERS, ∀ d, d ≤ gaussDeg n →
+    |gaussSumQ DEN (gauss n) d - 1 / ((d : ℚ) + 1)| ≤ 1 / ((10 ^ 12 : ℕ) : ℚ) := by
+  intro n hn d h
+  exact (gaussMomentOK_iff (gauss n) TOL d (by decide)).mp (gauss_exact n hn d h)
+
+-- non-vacuity: the checkers discriminate.  A synthetic one-point "rule" at (0.3, 0.3, 0.4) does not
+-- integrate λ₀; the centroid rule integrates degree 1 but not degree 2; the 2-point Gauss rule with a
+-- mistyped node fails.  (Sharpness of the code's own tables — degree o+1 is not integrated, order 9 is a
+-- Lobatto rule — is reported in the evidence by the driver, not demanded: a better table is not a violation.)
+example : triMomentOK 10 [(3, 3, 4, 10)] TOL 1 0 0 = false := by decide +kernel
+example : triExactB 3 [(1, 1, 1, 3)] 1 TOL = true ∧ triMomentOK 3 [(1, 1, 1, 3)] TOL 2 0 0 = false := by
   decide +kernel
-
--- non-vacuity: the statements are about real, non-trivial tables
-example : (tri 12).length = 33 ∧ triMomentOK DEN (tri 12) TOL 4 4 4 = true := by decide +kernel
-example : triMomentOK DEN (tri 4) TOL 2 2 1 = false := by decide +kernel  -- degree 5 fails for order 4
-example : gaussMomentOK DEN (gauss 9) TOL 16 = false := by decide +kernel   -- order 9 is Lobatto
+example : gaussMomentOK 100 [(21, 50), (78, 50)] TOL 1 = false := by decide +kernel
+example : triMomentOK DEN (tri 12) TOL 4 4 4 = true := by decide +kernel
 
 /-! ## T. The algorithm, for all inputs -/
 
@@ -224,6 +302,19 @@ theorem faceArea_eq_fan (sqrt : K → K) (q : Quad K) (cs : List (V3 K)) :
     faceArea sqrt q cs = fan (triQuad sqrt q) cs := by
   unfold faceArea fan triQuad
   rw [sumL_flatMap]
+
+/-! ### subdivision -/
+
+/-- **areas of a face and of the two pieces cut off by a diagonal from its start corner add up,
+    exactly** — for every rule table and every corner list (the computed area is a fan sum, and fan
+    sums split: `Area.fan_split`, which holds for ANY triangle functional).  For a diagonal between
+    two other corners the start corner has to be moved first, which costs at most the quadrature
+    error (`fan_shift_approx`). -/
+theorem area_split (sqrt : K → K) (q : Quad K) (a d : V3 K) (l₁ l₂ : List (V3 K)) :
+    faceArea sqrt q (a :: (l₁ ++ d :: l₂))
+      = faceArea sqrt q (a :: (l₁ ++ [d])) + faceArea sqrt q (a :: d :: l₂) := by
+  simp only [faceArea_eq_fan]
+  exact fan_split _ a d l₁ l₂
 
 /-! ### rigid motions -/
 
